@@ -103,6 +103,8 @@ class Fn:
                 return tmpl.format(**{k: self.E(v) for k, v in b.items()})
         if isinstance(e, ast.Constant) and e.value is None:
             return "none"
+        if isinstance(e, ast.Attribute) and ast.unparse(e) in self.cfg.get("attr_map", {}):
+            return self.cfg["attr_map"][ast.unparse(e)]
         if isinstance(e, ast.Attribute) and isinstance(e.value, ast.Name) and e.value.id in self.cfg.get("records", ()):
             return "%s.%s" % (e.value.id, e.attr)
         if isinstance(e, ast.IfExp) and self.is_none_test(e.test):
@@ -291,7 +293,7 @@ class Fn:
         nt = self.is_none_test(t)
         if nt is None and isinstance(t, ast.Compare) and len(t.ops) == 1 and isinstance(t.ops[0], (ast.Is, ast.IsNot)) \
                 and isinstance(t.left, ast.Attribute) and isinstance(t.left.value, ast.Name) \
-                and t.left.value.id in self.cfg.get("records", ()) \
+                and (t.left.value.id in self.cfg.get("records", ()) or ast.unparse(t.left) in self.cfg.get("attr_map", {})) \
                 and isinstance(t.comparators[0], ast.Constant) and t.comparators[0].value is None:
             fresh = "%s_%s" % (t.left.value.id, t.left.attr)
             key = ast.dump(t.left)
@@ -413,6 +415,11 @@ class Fn:
         cfg = self.cfg
         args = self.node.args.args
         body = self.node.body
+        if cfg.get("select") == "for_body":          # the body of the (only) top-level `for` statement of the function
+            loops = [n for n in body if isinstance(n, ast.For)]
+            if len(loops) != 1:
+                raise Unsupported("%s no longer has exactly one top-level for loop" % cfg["qual"])
+            body = loops[0].body
         if cfg.get("select") == "last_for":          # only the last top-level `for` statement of the function
             body = [n for n in body if isinstance(n, ast.For)][-1:]
             if not body:
@@ -563,6 +570,21 @@ FUNCS.append(
                       "words := {G}, undo := {H}, asNumbers := {I}, reserved := {J}, preservePrefixes := {K}, preserveNetworks := {L}, "
                       "suffixV4 := {M}, suffixV6 := {N} }})")]))
 
+FUNCS.append(
+    dict(module="netconan/anonymize_files.py", qual="FileAnonymizer.anonymize_io", name="line_step", select="for_body",
+         sig="(p : Lines.Pipeline) (lk : Secrets.Lookup) (line : List Char) : Except Err (List Char × Secrets.Lookup × List Secrets.LogRec)",
+         raise_="throw Err.{}",
+         attr_map={"self.anonymizer6": "p.ip6", "self.anonymizer4": "p.ip4", "self.anonymizer_sensitive_word": "p.words",
+                   "self.anonymizer_as_num": "p.asn"},
+         skip_stmts=["logging.debug(A, B)"],
+         stmt_rules=[("if self.compiled_regexes is not None and self.pwd_lookup is not None:\n"
+                      "    output_line = replace_matching_item(self.compiled_regexes, output_line, self.pwd_lookup, self.salt, self.reserved_words)",
+                      "let (output_line, lk, logs) ← Lines.secretStage p lk output_line"),
+                     ("out_io.write(output_line)", "!pure (output_line, lk, logs)")],
+         expr_rules=[("anonymize_ip_addr(A, B, self.undo_ip_anon)", "(← Lines.liftRes (IpText.anonIpLine {A} p.undo {B}))"),
+                     ("A.anonymize(B)", "(← Lines.liftRes (Words.anonymize p.wenv {A} {B}))"),
+                     ("anonymize_as_numbers(A, B)", "(← Lines.liftRes (AsNum.anonymize {A} {B}))")]))
+
 GROUPS = {
     "SrcIp": dict(imports=["Netconan.Model.Py", "Netconan.Model.Mask", "Netconan.Model.IpText"],
                   serves=["C01", "C02", "C03", "C04", "C05", "C17"],
@@ -571,6 +593,7 @@ GROUPS = {
                        funcs=["check_sensitive_item_format"]),
     "SrcAs": dict(imports=["Netconan.Model.Py", "Netconan.Model.Words"], serves=["C11"],
                   funcs=["generate_as_number_replacement"]),
+    "SrcLines": dict(imports=["Netconan.Model.Py", "Netconan.Model.Lines"], serves=["C12", "C13", "C14", "C15"], funcs=["line_step"]),
     "SrcCli": dict(imports=["Netconan.Model.Py", "Netconan.Model.Cli"], serves=["C19"], funcs=["main"]),
 }
 
